@@ -251,6 +251,19 @@ Fixpoint remove_first (o : oid) (l : list oid) : list oid :=
   | x :: r => if Nat.eqb x o then r else x :: remove_first o r
   end.
 
+Fixpoint nodup_o (l : list oid) (seen : list oid) : list oid :=
+  match l with
+  | [] => []
+  | o :: r => if mem_o o seen then nodup_o r seen else o :: nodup_o r (o :: seen)
+  end.
+(* a candidate list collides with the members or with itself *)
+Fixpoint clash (numf : oid -> Z) (members : list Z) (l : list oid) (seen : list Z) : bool :=
+  match l with
+  | [] => false
+  | o :: r => if orb (mem_Z (numf o) seen) (mem_Z (numf o) members) then true
+              else clash numf members r (numf o :: seen)
+  end.
+
 (* ---------------------------------------------------------------- linking *)
 (* obj.link_to_problem(problem); a Cell also links its surfaces / complements collections *)
 Definition link_obj (g : st) (k : kind) (o : oid) : st :=
@@ -278,23 +291,32 @@ Definition cell_add (g : st) (c : oid) (isc : bool) (o : oid) : st * bool :=
     let g1 := set_cell g c r' in
     ((if c_lnk r then link_obj g1 k o else g1), true).
 
-Fixpoint cell_add_all (g : st) (c : oid) (isc : bool) (l : list oid) : st * bool :=
-  match l with
-  | [] => (g, true)
-  | o :: r => match cell_add g c isc o with
-              | (g1, true) => cell_add_all g1 c isc r
-              | (g1, false) => (g1, false)
-              end
-  end.
+(* HalfSpace._add_new_children_to_cell(other, cell): the dividers of one kind that the cell does
+   not hold yet (a Python set: no repetitions); None when one of them has the number of another
+   divider of the cell or of another new one.  Nothing is added before both kinds were checked. *)
+Definition cell_new (g : st) (c : oid) (isc : bool) (l : list oid) : option (list oid) :=
+  let r := cellf g c in
+  let k := kind_of_isc isc in
+  let have := if isc then c_comps r else c_surfs r in
+  let nw := nodup_o (filter (fun o => negb (mem_o o have)) l) [] in
+  if clash (num g k) (map (num g k) have) nw [] then None else Some nw.
 
-(* HalfSpace._add_new_children_to_cell(other) on a node whose _cell is cp: cells first, then surfaces *)
+(* parent.extend(new_items): appended in one go, linked when the list is linked *)
+Definition cell_extend (g : st) (c : oid) (isc : bool) (nw : list oid) : st :=
+  let r := cellf g c in
+  let k := kind_of_isc isc in
+  let r' := if isc then cr_lists r (c_surfs r) (c_comps r ++ nw) else cr_lists r (c_surfs r ++ nw) (c_comps r) in
+  let g1 := set_cell g c r' in
+  if c_lnk r then link_all g1 k nw else g1.
+
 Definition add_children (g : st) (cp : option oid) (other : hs) : st * bool :=
   match cp with
   | None => (g, true)
-  | Some c => match cell_add_all g c true (leaves_cell other) with
-              | (g1, true) => cell_add_all g1 c false (leaves_surf other)
-              | (g1, false) => (g1, false)
-              end
+  | Some c =>
+      match cell_new g c true (leaves_cell other), cell_new g c false (leaves_surf other) with
+      | Some nc, Some ns => (cell_extend (cell_extend g c true nc) c false ns, true)
+      | _, _ => (g, false)
+      end
   end.
 Fixpoint add_children_all (g : st) (cps : list (option oid)) (other : hs) : st * bool :=
   match cps with
@@ -500,25 +522,21 @@ Definition mt_up (g : st) (x : oid) : st * res :=
   | None => (g, RErr MalformedInput)
   end.
 
-(* "for input in self._data_inputs: input.update_pointers(self._data_inputs)": the list is
-   mutated while it is iterated by index *)
-Fixpoint data_loop (fuel : nat) (g : st) (i : nat) : st * res :=
-  match fuel with
-  | O => (g, RErr OutOfFuel)
-  | S f =>
-      match nth_error (dins g) i with
-      | None => (g, ROk)
-      | Some it =>
-          let step :=
-            match it with
-            | DMat m => mat_up g m (dins g)
-            | DMT x => mt_up g x
-            | _ => (g, ROk)
-            end in
-          match step with
-          | (g1, ROk) => data_loop f g1 (S i)
-          | (g1, e) => (g1, e)
-          end
+(* "for input in list(self._data_inputs): input.update_pointers(self._data_inputs)": a copy of
+   the list is walked; materials remove their MT input from the live list *)
+Fixpoint data_loop (g : st) (snapshot : list ditem) : st * res :=
+  match snapshot with
+  | [] => (g, ROk)
+  | it :: rest =>
+      let step :=
+        match it with
+        | DMat m => mat_up g m (dins g)
+        | DMT x => mt_up g x
+        | _ => (g, ROk)
+        end in
+      match step with
+      | (g1, ROk) => data_loop g1 rest
+      | (g1, e) => (g1, e)
       end
   end.
 
@@ -560,7 +578,7 @@ Definition update_pointers (g : st) : st * res :=
         | (g5, ROk) =>
             match surfs_up g5 (coll g5 KSurf) with
             | (g6, RErr e) => (g6, RErr e)
-            | (g6, ROk) => data_loop (S (List.length (dins g6))) g6 0
+            | (g6, ROk) => data_loop g6 (dins g6)
             end
         end
     end.
@@ -734,10 +752,10 @@ Inductive op :=
 | Dedup (pairs : list (oid * oid))     (* duplicate detection is an input: (dead, kept) *)
 | Relink.                              (* __update_internal_pointers on its own (reading) *)
 
-(* _link_geometry_to_cell: geom._cell = cell; geom._add_new_children_to_cell(geom) *)
+(* _link_geometry_to_cell: geom._add_new_children_to_cell(geom, cell); geom._cell = cell
+   (the tree is pointed at the cell only when the cell accepted all its dividers) *)
 Definition link_geometry (g : st) (c : oid) (t : hs) : st * hs * bool :=
-  let t' := set_cp t (Some c) in
-  let '(g1, ok) := add_children g (Some c) t' in (g1, t', ok).
+  let '(g1, ok) := add_children g (Some c) t in (g1, (if ok then set_cp t (Some c) else t), ok).
 
 Definition set_geom (g : st) (c : oid) (e : ex) : st * res :=
   if Nat.ltb 1 (uses_old e) then (g, RErr PathErr)
@@ -814,7 +832,7 @@ Definition iop_child (g : st) (c : oid) (p : list bool) (side : bool) (o : bop) 
       end
   end.
 
-(* UnitHalfSpace.divider setter *)
+(* UnitHalfSpace.divider setter: the cell's list is asked first, then the divider is assigned *)
 Definition set_div (g : st) (c : oid) (p : list bool) (isc : bool) (d : oid) : st * res :=
   match c_geom (cellf g c) with
   | None => (g, RErr PathErr)
@@ -824,11 +842,10 @@ Definition set_div (g : st) (c : oid) (p : list bool) (isc : bool) (d : oid) : s
           if negb (Bool.eqb b isc) then (g, RErr TypeErr)
           else
             let t1 := replace_at t p (Leaf b (DObj d) cp) in
-            let g1 := set_cell g c (cr_geom (cellf g c) (Some t1)) in
             match cp with
-            | None => (g1, ROk)
-            | Some c' => match cell_add g1 c' isc d with
-                         | (g2, true) => (g2, ROk)
+            | None => (set_cell g c (cr_geom (cellf g c) (Some t1)), ROk)
+            | Some c' => match cell_add g c' isc d with
+                         | (g2, true) => (set_cell g2 c (cr_geom (cellf g2 c) (Some t1)), ROk)
                          | (g2, false) => (g2, RErr NumberConflict)
                          end
             end
@@ -853,22 +870,11 @@ Definition remove (g : st) (k : kind) (o : oid) : st * res :=
   if mem_o o (coll g k) then (set_coll g k (remove_first o (coll g k)), ROk)
   else (g, RErr ValueErr).
 
-Fixpoint clash (numf : oid -> Z) (members : list Z) (l : list oid) (seen : list Z) : bool :=
-  match l with
-  | [] => false
-  | o :: r => if orb (mem_Z (numf o) seen) (mem_Z (numf o) members) then true
-              else clash numf members r (numf o :: seen)
-  end.
 Definition extend (g : st) (k : kind) (l : list oid) : st * res :=
   if clash (num g k) (map (num g k) (coll g k)) l [] then (g, RErr NumberConflict)
   else (link_if (set_coll g k (coll g k ++ l)) k l, ROk).
 
 (* ---- add_cell_children_to_problem *)
-Fixpoint nodup_o (l : list oid) (seen : list oid) : list oid :=
-  match l with
-  | [] => []
-  | o :: r => if mem_o o seen then nodup_o r seen else o :: nodup_o r (o :: seen)
-  end.
 Fixpoint insert_by (key : oid -> Z) (o : oid) (l : list oid) : list oid :=
   match l with
   | [] => [o]
@@ -954,7 +960,8 @@ Fixpoint hs_dedup (g : st) (m : list (oid * oid)) (h : hs) : st * hs * bool :=
       | Some k =>
           match cp with
           | None => (g, Leaf false (DObj k) cp, true)
-          | Some c => let '(g1, ok) := cell_add g c false k in (g1, Leaf false (DObj k) cp, ok)
+          | Some c => let '(g1, ok) := cell_add g c false k in
+                      (g1, (if ok then Leaf false (DObj k) cp else h), ok)
           end
       | None => (g, h, true)
       end
